@@ -93,6 +93,7 @@ inductive ApiProg : List Instr → Prop where
   | append (l : Lid) (pc : Int) (h : Hash) (tag : Nat) : ApiProg (appendProg l pc h tag)
   | join (dst src : Lid) (srcId : Bytes) (size : Int) : ApiProg (joinProg dst src srcId size)
   | joinNoop : ApiProg joinNoopProg
+  | joinRefused (dst src : Lid) : ApiProg (joinRefusedProg dst src)
   | setIdentity (l : Lid) (cid : Bytes) : ApiProg (setIdentityProg l cid)
   | reader (l : Lid) : ApiProg (readerProg l)
   | heads (l : Lid) : ApiProg (headsProg l)
@@ -102,7 +103,7 @@ inductive ApiProg : List Instr → Prop where
 /-- every API program keeps the discipline -/
 theorem api_programs_wb {p : List Instr} (h : ApiProg p) : wb none p = true := by
   cases h <;>
-    simp [appendProg, joinProg, joinNoopProg, setIdentityProg, readerProg, headsProg, iteratorProg,
+    simp [appendProg, joinProg, joinNoopProg, joinRefusedProg, setIdentityProg, readerProg, headsProg, iteratorProg,
       toMultihashProg, wb, heldAfter]
 
 /-- a world of API calls on free locks is an initial world -/
